@@ -4,7 +4,7 @@
 From Coq Require Import List String NArith Bool.
 Import ListNotations.
 From GMQ Require Import Base.Bytes Codec.Desc Codec.Prim Codec.Value Codec.MethodCodec Codec.Header Codec.Frame Codec.Records.
-From GMQ Require Import Codec.gen.MethodsGen Codec.gen.TagsGen Codec.gen.ConstGen Codec.gen.SpecGen.
+From GMQ Require Import Codec.gen.MethodsGen Codec.gen.TagsGen Codec.gen.ConstGen Codec.gen.SpecGen Codec.gen.RecordsGen.
 Open Scope N_scope.
 
 Definition rd_gen (d : dialect) : list reader_row := match d with D091 => reader_091 | DRabbit => reader_rabbit end.
@@ -31,9 +31,12 @@ Definition decode_frame (bs : bytes) := dec_frame frame_alloc c_FrameEnd bs.
 Definition encode_frame (f : frame) := enc_frame c_FrameEnd f.
 
 Definition decode_message (d : dialect) (bs : bytes) :=
-  dec_message longstr_alloc frame_alloc c_FrameEnd rd_gen d props_fields props_read bs.
-Definition encode_message (d : dialect) (m : message) := enc_message c_FrameEnd wr_gen d props_fields props_write m.
-Definition wf_message_gen (d : dialect) (m : message) := wf_message rd_gen wr_gen d props_fields m.
+  dec_message longstr_alloc frame_alloc c_FrameEnd rd_gen d props_fields props_read message_trailer_read bs.
+Definition encode_message (d : dialect) (m : message) := enc_message c_FrameEnd wr_gen d props_fields props_write message_trailer_written m.
+(* a record as written before the trailer existed *)
+Definition encode_message_legacy (d : dialect) (m : message) := enc_message c_FrameEnd wr_gen d props_fields props_write false m.
+Definition wf_message_gen (d : dialect) (m : message) := wf_message rd_gen wr_gen d props_fields message_trailer_written m.
+Definition wf_message_legacy (d : dialect) (m : message) := wf_message rd_gen wr_gen d props_fields false m.
 Definition decode_binding (d : dialect) (bs : bytes) := dec_binding longstr_alloc rd_gen d bs.
 Definition encode_binding (d : dialect) (b : binding_rec) := enc_binding wr_gen d b.
 Definition wf_binding_gen (d : dialect) (b : binding_rec) := wf_binding rd_gen wr_gen d b.
